@@ -202,9 +202,14 @@ def run_case(ctx, case, rng):
   base = {'ops': common.describe_model(spec.content, src), 'metric': metric, 'n_samples': n}
   # --- model vs itself
   if case % 4 == 0:
-    res = model_validator.compare_model(spec.content, spec.content, datasets, metric, validation_utils.get_validation_func(metric),
-                                        use_reference_kernel=REFERENCE_KERNELS[0])
-    for s in spec.signatures:
+    try:
+      res = model_validator.compare_model(spec.content, spec.content, datasets, metric, validation_utils.get_validation_func(metric),
+                                          use_reference_kernel=REFERENCE_KERNELS[0])
+    except Exception as e:  # pylint: disable=broad-except
+      res = None
+      ctx.violation('validate_raised', {'exc': common.exc_signature(e)[:80], 'metric': metric, 'pair': 'self',
+                                        'duplicate_output': 'duplicate_output' in spec.classes}, base)
+    for s in spec.signatures if res is not None else []:
       check_result(ctx, res.get_signature_comparison_result(s['key']), src, spec.content, spec.content, s, datasets[s['key']],
                    metric, dict(base, pair='self'), expect_zero=True)
     ctx.count('self_comparisons')
@@ -235,7 +240,8 @@ def run_case(ctx, case, rng):
     try:
       res = run.qt.validate(test, metric, use_reference_kernel=REFERENCE_KERNELS[0])
     except Exception as e:  # pylint: disable=broad-except
-      ctx.violation('validate_raised', {'exc': common.exc_signature(e)[:80], 'metric': metric}, d)
+      ctx.violation('validate_raised', {'exc': common.exc_signature(e)[:80], 'metric': metric,
+                                        'duplicate_output': 'duplicate_output' in spec.classes}, d)
       return
     qm = models.read(run.out)
     n_q = sum(1 for sg in qm.subgraphs for t in sg.tensors if t.quantization is not None and t.quantization.scale is not None)
